@@ -151,9 +151,7 @@ theorem parseFieldType_fine {ts : List Token} (h : WFS ts) : (parseFieldType ts)
     cases typeOfTok (cur ts1).tok with
     | none =>
       simp only
-      split
-      · simp [PR.Fine]
-      · exact k1
+      split <;> simp [PR.Fine]
     | some ft =>
       simp only
       split
